@@ -219,6 +219,95 @@ def check_case(res, lengths, variant, share):
         res.sample(dict(lengths=list(lengths), len=n, expected_grid_of_item=[GRID0 + j for j, _, _ in concat]))
 
 
+
+# --------------------------------------------------------------------------------------------- operation sequences
+# The per-case check above asks its questions in one fixed order. Here every sequence of observations up to a depth is run
+# on a fresh collection (all orders, with repetition): a lazily cached answer computed by one observation must not change
+# what a later one returns. Reference = the same list concatenation for every step.
+SEQ_OPS = ["len", "items", "items_rev", "mazes", "lengths", "n_mazes", "update_self_config", "iter", "getitem_last"]
+
+
+def seq_vectors(tier):
+    V = [[2], [0], [2, 1], [0, 2], [2, 0], [1, 0, 2], [0, 0, 1], [1, 2, 0], [0, 1, 0, 2], [3, 0, 0, 1]]
+    if tier != "quick":
+        V += [[1, 1, 1, 1], [0, 0, 0], [2, 0, 3, 0, 1], [4, 1], [0, 3, 0]]
+    return V
+
+
+def seq_step(coll, concat, lengths, op, variant):
+    """run one observation; return None if it agrees with the concatenation, else a (symptom, detail) pair"""
+    total = sum(lengths)
+    if op == "len":
+        n = len(coll)
+        return None if n == total else ("len_wrong", f"len = {n}, expected {total}")
+    if op in ("items", "items_rev"):
+        order = range(total) if op == "items" else range(total - 1, -1, -1)
+        for g in order:
+            if coll[g] is not concat[g][2]:
+                return ("item_wrong", f"collection[{g}] is {describe(coll[g])}, expected maze {concat[g][1]} of member {concat[g][0]}")
+        return None
+    if op == "getitem_last":
+        if total and coll[total - 1] is not concat[-1][2]:
+            return ("item_wrong", f"collection[{total - 1}] is {describe(coll[total - 1])}")
+        return None
+    if op == "mazes":
+        flat = coll.mazes
+        if len(flat) != total or any(a is not b[2] for a, b in zip(flat, concat)):
+            return ("mazes_wrong", f"collection.mazes has {len(flat)} entries / differs from the concatenation ({total})")
+        return None
+    if op == "lengths":
+        dl = [int(x) for x in coll.dataset_lengths]
+        dc = [int(x) for x in np.asarray(coll.dataset_cum_lengths).tolist()]
+        if dl != list(lengths) or dc != list(itertools.accumulate(lengths)):
+            return ("lengths_wrong", f"dataset_lengths = {dl}, dataset_cum_lengths = {dc}")
+        return None
+    if op == "n_mazes":
+        if variant == "declared" and coll.cfg.n_mazes != total:
+            return ("n_mazes_wrong", f"cfg.n_mazes = {coll.cfg.n_mazes}, expected {total}")
+        return None
+    if op == "update_self_config":
+        coll.update_self_config()
+        if coll.cfg.n_mazes != total:
+            return ("n_mazes_wrong_after_update", f"cfg.n_mazes = {coll.cfg.n_mazes} after update_self_config(), expected {total}")
+        return None
+    if op == "iter":
+        got = []
+        for g in range(total):
+            got.append(coll[g])
+        if len(got) != total:
+            return ("iter_wrong", f"{len(got)} items")
+        return None
+    raise KeyError(op)
+
+
+def run_seq(res, lengths, variant, share, seq):
+    rd = dict(kind="seq", lengths=list(lengths), variant=variant, share=bool(share), seq=list(seq))
+    coll, concat = build(lengths, variant, share)
+    for k, op in enumerate(seq):
+        res.ev()
+        try:
+            bad = seq_step(coll, concat, lengths, op, variant)
+        except Exception as e:  # noqa: BLE001
+            bad = (f"raises|{type(e).__name__}", f"{type(e).__name__}: {str(e)[:120]}")
+        if bad:
+            prior = "first_observation" if k == 0 else "after_" + seq[k - 1]
+            res.fail(f"C16|sequence|{op}|{bad[0]}|{prior}|{has_empty(lengths)}",
+                     f"observation sequence {list(seq[:k + 1])} on a fresh collection with lengths={list(lengths)} ({variant}, member configs "
+                     f"{'shared' if share else 'equal copies'}): {bad[1]}", dict(rd, seq=list(seq[:k + 1])))
+            return
+    res.nontrivial(("seq", tuple(lengths), variant, share, tuple(seq)))
+
+
+def seq_task(t, res):
+    depth = t["depth"]
+    seqs = [q for d in range(1, depth + 1) for q in itertools.product(SEQ_OPS, repeat=d)]
+    lengths = t["lengths"]
+    for variant, share in VARIANTS:
+        for q in seqs:
+            run_seq(res, lengths, variant, share, q)
+        res.count("sequences", len(seqs))
+
+
 # --------------------------------------------------------------------------------------------- runner interface
 N_TASKS = 32
 
@@ -234,19 +323,26 @@ def run(ctx):
     V = vectors(ctx.tier)
     tasks = [dict(tier=ctx.tier, r=r) for r in range(N_TASKS)]
     ctx.pmap("mzcheck.checks.c16", "task", tasks)
+    depth = 3
+    ctx.pmap("mzcheck.checks.c16", "seq_task", [dict(tier=ctx.tier, lengths=v, depth=depth) for v in seq_vectors(ctx.tier)])
     top, kmax = (3, 4) if ctx.quick else (4, 5)
     ctx.coverage.update(
         length_vectors=len(V), member_length_range=f"0..{top}", members=f"1..{kmax}", member_grid_sizes=[GRID0 + j for j in range(kmax)],
         constructions=[f"{v}/{'shared' if s else 'copied'} member configs" for v, s in VARIANTS],
+        observation_sequences=dict(ops=SEQ_OPS, depth=depth, vectors=seq_vectors(ctx.tier), sequences_run=ctx.res.counters.get("sequences", 0)),
         collections=len(V) * len(VARIANTS), indices_checked=sum(sum(v) for v in V) * len(VARIANTS), index_eq_len_probed=True,
     )
     ctx.rule = ("every member-length vector up to the bound (all zero patterns included), member j on its own grid size, every index "
                 "0 <= i <= len, four constructions (declared / shrunk-by-one member counts x shared / copied member configs); "
-                "distinct = distinct (vector, construction, index) and (vector, construction)")
+                "every sequence of up to 3 observations over 9 observation kinds (all orders, with repetition) on fresh collections of 10 (15) representative vectors; "
+                "distinct = distinct (vector, construction, index), (vector, construction) and (vector, construction, observation sequence)")
     ctx.exhaustive = True
     ctx.assumptions += ["member mazes are fixed comb-tree mazes with a shortest-path solution (maze content plays no role in the indexing code)",
                         "indices are Python ints; negative indices are outside the statement ('every valid index')"]
 
 
 def replay(d, res):
+    if d.get("kind") == "seq":
+        run_seq(res, [int(x) for x in d["lengths"]], d["variant"], bool(d["share"]), list(d["seq"]))
+        return
     check_case(res, [int(x) for x in d["lengths"]], d["variant"], bool(d["share"]))
